@@ -16,6 +16,22 @@ def run(ctx):
             # a request the model answers and the server does not (or answers differently) is a
             # correspondence break; a panic or hang is the concrete failing input
             seqlib.analyse(ctx, lines, tr, ok_drv, "C11", relevant_ops=set())
+        # the simple server (simple/ops.go): hostile inode numbers, offsets and counts over the
+        # whole 64/32-bit range; panics, hangs and what one request allocates
+        st = os.path.join(ctx.scratch, "simple.txt")
+        rc, err = ctx.harness(["simple", "-seed", str(ctx.seed), "-seqs", "60" if ctx.tier == "thorough" else "12"], st, timeout=3000)
+        if rc != 0:
+            ctx.breaks.append(Break("correspondence", "harness simple failed to run", err[-2000:]))
+        else:
+            sl = open(st).read().splitlines()
+            ctx.cov["evaluations"] += len([l for l in sl if l and not l.startswith("#")])
+            ctx.cov["simple_requests"] = len([l for l in sl if l and not l.startswith("#")])
+            for l in sl:
+                if l.startswith("# PANIC") or l.startswith("# HANG"):
+                    kind = "panic" if "PANIC" in l else "hang"
+                    ctx.add_violation("%s:simple:%s" % (kind, seqlib.op_of(l.split(" :: ", 1)[-1])), l[2:300], {"how": "harness simple -seed %d" % ctx.seed})
+                if l.startswith("# ORACLE C11 "):
+                    ctx.add_violation("simple:" + l.split()[3], l[2:400], {"how": "harness simple -seed %d: allocation of the handler measured around the request" % ctx.seed})
         desc = os.path.join(vlib.LEAN, "GoNfsd", "Spec", "rfc1813_desc.json")
         rounds = 8 if ctx.tier == "thorough" else 1
         iters = 250000 if ctx.tier == "thorough" else 40000
@@ -48,7 +64,8 @@ def run(ctx):
         ctx, "proof",
         "PARTIAL. Theorems: the wrap-around WRITE guard is exact for all 64-bit offsets/counts, READ's arithmetic cannot wrap under its precondition, every "
         "block index under the guards is in range, the XDR decoder is total and never amplifies, the reference model answers every request. Correspondence with "
-        "hostile arguments; RPC-level message fuzzing (search only) for panics, hangs and memory growth",
+        "hostile arguments; RPC-level message fuzzing (search only) for panics, hangs and memory growth; what one request allocates is measured around every request of "
+        "the sequential harness and of the simple server's harness (bound 64 MB, transfers are at most about 2 MB)",
         "seq: hostile handles (length 0..67, huge and out-of-table inode numbers), names of any length, offsets/sizes/cookies up to 2^64-1, count≠len(data); "
         "fuzz: generated arguments of all 28 procedures with live handles/names, XDR-encoded, 40% mutated (truncate, bit flip, word overwrite, junk), delivered to "
         "the registration handlers of a live server; outcome classes reply / decode error / panic / hang / heap growth",
